@@ -168,6 +168,9 @@ class Flow:
                     t = blk['term']
                     if t['k'] == 'switch' and role == 'switch' and not t['on']['p']['proj']:
                         self._record_switch(res, ubb, t, mode, ty0, neg)
+                    elif t['k'] == 'switch' and role == 'switch' and mode == 'val' and self._payload_proj(t['on']['p']['proj']) == 'bool':
+                        # `match r { Ok(true) => .., Ok(false) => .. }`: a switch directly on the payload (r as Ok).0
+                        self._record_switch(res, ubb, t, 'val', 'bool', neg)
                     elif t['k'] == 'call':
                         c = callee(t) or ''
                         if role == 'arg:0' and not t['args'][0]['p']['proj'] and not t['dst']['proj']:
@@ -194,6 +197,9 @@ class Flow:
                 d = st['dst']['l']
                 if rv['k'] == 'use' and role.startswith('rv:use') and not rv['ops'][0]['p']['proj']:
                     work.append((d, mode, ty0, neg))
+                elif rv['k'] == 'use' and role.startswith('rv:use') and mode == 'val' and self._payload_proj(rv['ops'][0]['p']['proj']) is not None:
+                    # `Ok(v)` / `Some(v)` pattern binding: the payload is a new value
+                    work.append((d, 'val', self.body.local_ty(d), False))
                 elif rv['k'] == 'use' and mode == 'try' and len(rv['ops'][0].get('p', {}).get('proj', [])) == 2 and \
                         isinstance(rv['ops'][0]['p']['proj'][0], dict) and rv['ops'][0]['p']['proj'][0].get('name') == 'Continue':
                     # payload of `x?` : a new value (e.g. the bool of Result<bool>, the Option of Result<Option<T>>)
@@ -214,6 +220,13 @@ class Flow:
                 elif rv['k'] == 'ref' and rv['p']['proj'] == ['deref']:
                     work.append((d, mode, ty0, neg))
         return dict(res)
+
+    @staticmethod
+    def _payload_proj(proj):
+        """type of the payload for a place projection `(x as Ok|Some).0`, else None"""
+        if len(proj) == 2 and isinstance(proj[0], dict) and proj[0].get('name') in ('Ok', 'Some') and isinstance(proj[1], dict) and proj[1].get('f') == 0:
+            return proj[1].get('ty') or ''
+        return None
 
     def _record_switch(self, res, bb, t, mode, ty0, neg):
         names = self._variant_names(mode, ty0)
